@@ -289,7 +289,8 @@ func init() {
 		Cases: c07Tier,
 		Run:   c07Run,
 		Rule: "random trees (depth <= 4, width 0..4) with leaves, nil slots, Conditions with stack / non-stack / Condition expressions, alias forms and per-stack negative/forward index options; " +
-			"for each tree ALL paths of length 0..3 over indices [-1,5] plus 600 sampled paths of length 4..depth+2; Traverse is compared (value identity after alias normalisation, success flag) with a reference descent written over Index/ConvertStack/ConvertCondition/Expression only. " +
+			"for each tree ALL paths of length 0..3 over indices [-1,5] plus 600 sampled paths of length 4..depth+2; Traverse is compared (value identity after alias normalisation, success flag) with a reference descent written over Index/Expression and the harness's own converters (AsStack/AsCond) only. " +
+			"On every third tree a second phase re-assigns expressions (Stack <-> plain value) and sets left-over errors through retained handles and compares all short paths again; a sixth of the trees is spiced (very wide stack, very long string, one instance at two positions). " +
 			"non-trivial = the reference fails at step j while a later index, applied to that same level, addresses something descendable (the sibling-substitution shape); distinct = (tree, path).",
 		Assumptions: []string{"'exactly the value' is read strictly: the dynamic type and identity of the result must equal what Index yields (an alias stays an alias)"},
 		Floors: func(tier string) map[string]int64 {
